@@ -6,6 +6,10 @@ import MidnightZK.Proofs.C04.DivRem
 import MidnightZK.Proofs.C04.Complete
 import MidnightZK.Proofs.C04.Bytes
 import MidnightZK.Proofs.C04.Opt
+import MidnightZK.Proofs.C04.Invariant
+import MidnightZK.Proofs.C04.Extra
+import MidnightZK.Proofs.C04.Complete2
+import MidnightZK.Proofs.C04.Tight
 /-!
 # C04 — native-field gadgets are complete and sound w.r.t. their mathematical meaning
 
@@ -314,9 +318,10 @@ theorem assert_less_than_pow2_sound_all (hR : RangeSound R) (s : St F) (x : Cell
     ∃ N : Nat, N < 2 ^ k ∧ asg x = (N : F) :=
   assert_less_than_pow2_sound hR s x k asg h0 h4 (optOK_all s k h0 hm) hc h
 
-/-- `assert_lower_than_fixed` for an arbitrary bound (constraint-emitting path). Partial: the
-early return on a cached smaller bound is justified by an invariant of `constrained_cells` that
-is not proved here. -/
+/-- `assert_lower_than_fixed` for an arbitrary bound (constraint-emitting path only: hypothesis
+`boundLe = false`). The early return on a cached smaller bound is covered by
+`assert_lower_than_fixed_sound` (given the cache invariant) and, without any hypothesis on the
+caches, by `assert_lower_than_fixed_sound_reachable` (the invariant is `bounds_sound`). -/
 theorem assert_lower_than_fixed_sound_partial (hR : RangeSound R) (s : St F) (x : Cell)
     (bound : Nat) (asg : Cell → F) (hnb : s.boundLe x bound = false) (hb : 0 < bound)
     (h0 : 0 < s.nrCols) (h4 : s.nrCols ≤ 4) (hopt : OptOK s bound.log2)
@@ -363,6 +368,109 @@ example (s : St F) (x : Cell) (asg : Cell → F) (hB : (s.updateBound x 5).Bound
     | none => simp [hf]
     | some p => simp [hf]; omega
   exact ⟨by unfold assertLowerThanFixed; simp [hle], boundLe_sound _ asg hB x 9 hle⟩
+
+
+/-! ## The bound-cache invariant over whole programs -/
+
+/-- **BOUND-CACHE INVARIANT** (`NativeGadget::constrained_cells`). For EVERY program of the core
+language (`COp`: assignments, arithmetic, assertions, equality tests, boolean logic, and every
+writer and reader of the cache — conversions bit/byte ↔ native, `assert_lower_than_fixed`,
+`assign_lower_than_fixed`, `bounded_of_element`, `bnot`, `lower_than(_fixed)`, `leq/geq/
+greater_than(_fixed)`, `assigned_from_le_bits/bytes`, `div_rem`, the byte-typed assertions and
+equality tests, the gadget's `assert_equal`), run from the empty synthesis in any configuration
+with 1..4 lookup columns, and for EVERY assignment `asg` accepted by the constraints emitted so far:
+
+* every entry `(cell, b)` of the cache is implied by the constraints: `asg cell = n` for a natural
+  number `n < b` (strict, as all readers interpret it);
+* every cached constant cell holds its constant;
+* every variable of type bit / byte / bounded(k) holds a natural number below 2 / 256 / 2^k.
+
+Proof: induction over the operation list (`runCore_good`), one case per operation
+(`COp.run_good`). The cases `b2n` / `y2n` (and the recompositions and byte-typed instructions,
+which convert their operands) record a bound WITHOUT emitting a constraint; they are justified by
+the type invariant of the operand only, which gives `< 2` and `< 256`. A model mirroring a code
+that records `u8::MAX = 255` for a byte (seed C04-1) cannot prove this step: the 8-bit lookup
+behind an `AssignedByte` allows the value 255. -/
+theorem bounds_sound (hR : RangeSound R) (fi : FieldInfo) (nr mbl : Nat) (h0 : 0 < nr) (h4 : nr ≤ 4)
+    (hm : 0 < mbl) (prog : List (COp F)) (r : RunSt F)
+    (hrun : runCore fi ⟨St.init nr mbl, #[]⟩ prog = some r) (asg : Cell → F)
+    (h : r.st.Holds R asg) :
+    (∀ p ∈ r.st.bounds, ∃ n : Nat, n < p.2 ∧ asg p.1 = (n : F)) ∧ r.st.CacheOK asg ∧
+    (∀ v ∈ r.vars.toList, TyOK asg v) := by
+  obtain ⟨_, _, _, hall⟩ := runCore_good hR fi prog _ r (init_good nr mbl h0 h4 hm) hrun
+  obtain ⟨c, b, t⟩ := hall asg h
+  exact ⟨b, c, t⟩
+
+/-- **The bound 256 of a byte is tight**: in the state after assigning an `AssignedByte` (4 lookup
+columns, `max_bit_len = 8`, the true table predicate `RTable`), the assignment that gives the cell
+the value 255 satisfies every constraint. Hence the cache entry `(cell, 255)` — what
+`update_bound(&byte.0, u8::MAX)` would record (seed C04-1) — is NOT implied by the constraints,
+in any field of characteristic above 255: the step `y2n` of `bounds_sound` is false for a model of
+that code, while it is proved for the entry `(cell, 256)`. -/
+theorem byte_bound_is_tight (p : Nat) (hp : 256 ≤ p)
+    (hinj : ∀ a b : Nat, a < p → b < p → ((a : Nat) : F) = ((b : Nat) : F) → a = b) :
+    (∃ asg : Cell → F, (assignLessThanPow2 (St.init 4 8 : St F) 8).2.Holds RTable asg ∧
+      asg (assignLessThanPow2 (St.init 4 8 : St F) 8).1 = ((255 : Nat) : F)) ∧
+    ¬ (∀ asg : Cell → F, (assignLessThanPow2 (St.init 4 8 : St F) 8).2.Holds RTable asg →
+      ∃ n : Nat, n < 255 ∧ asg (assignLessThanPow2 (St.init 4 8 : St F) 8).1 = (n : F)) :=
+  ⟨⟨wit255, byte_255_accepted⟩, byte_bound_255_not_implied p hp hinj⟩
+
+/-- The induction step of `bounds_sound`, for one operation emitted into ANY good state (not only
+states reachable from the empty synthesis). -/
+theorem bounds_sound_step (hR : RangeSound R) (fi : FieldInfo) (r r' : RunSt F) (op : COp F)
+    (hg : r.Good R) (h : op.run fi r = some r') : r'.Good R :=
+  COp.run_good hR fi r r' op hg h
+
+/-- The theorem is not vacuous: the program `iny ; y2n 0 ; alf 1 256 ; bnd 1 8 ; ltf 2 255` (a
+byte, seen as a native value, range-checked, compared with 255) is a well-typed program of the
+core language: it runs. -/
+example : (runCore (F := F) ⟨7, 3⟩ ⟨St.init 4 8, #[]⟩
+    [.assignByte, .y2n 0, .alf 1 256, .bnd 1 8, .ltf 2 255]).isSome = true := rfl
+
+/-- … and what the invariant is used for: after byte → native the recorded bound 256 makes
+`assert_lower_than_fixed(x, 256)` return early (no constraint), which is sound because the
+invariant gives `x < 256`. -/
+example (s : St F) (x : Cell) (asg : Cell → F) (hB : (convertByteToNative s x).BoundsOK asg) :
+    assertLowerThanFixed (convertByteToNative s x) x 256 = convertByteToNative s x ∧
+    ∃ M : Nat, M < 256 ∧ asg x = (M : F) := by
+  have hle : (convertByteToNative s x).boundLe x 256 = true := by
+    unfold convertByteToNative St.boundLe St.updateBound St.getBound
+    cases hf : s.bounds.find? (fun p => p.1 = x) with
+    | none => simp [hf]
+    | some p => simp [hf]; omega
+  exact ⟨by unfold assertLowerThanFixed; simp [hle], boundLe_sound _ asg hB x 256 hle⟩
+
+/-- **`assert_lower_than_fixed` in every reachable state, every path** — no hypothesis on the
+caches: the early return on a recorded bound `≤ bound` is sound BECAUSE of `bounds_sound`.
+Completes `assert_lower_than_fixed_sound_partial` / `assert_lower_than_fixed_sound`. -/
+theorem assert_lower_than_fixed_sound_reachable (hR : RangeSound R) (fi : FieldInfo) (nr mbl : Nat)
+    (h0 : 0 < nr) (h4 : nr ≤ 4) (hm : 0 < mbl) (prog : List (COp F)) (r : RunSt F)
+    (hrun : runCore fi ⟨St.init nr mbl, #[]⟩ prog = some r) (x : Cell) (bound : Nat)
+    (hb : 0 < bound) (asg : Cell → F) (h : (assertLowerThanFixed r.st x bound).Holds R asg) :
+    ∃ M : Nat, M < bound ∧ asg x = (M : F) := by
+  obtain ⟨g0, g4, gm, hall⟩ := runCore_good hR fi prog _ r (init_good nr mbl h0 h4 hm) hrun
+  obtain ⟨c, b, _⟩ := hall asg ((assertLowerThanFixed_ext ..).holds asg h)
+  exact (assertLowerThanFixed_sound hR r.st x bound asg hb g0 g4 (optOK_all _ _ g0 gm) c b h).2.2
+
+/-- **`lower_than_fixed` in every reachable state, every path**, for an operand of type
+`AssignedBounded` (its bound comes from the type invariant, the recorded bounds from
+`bounds_sound`): the output is `[x < y]`, including the two shortcuts that return the constant
+`true` (`y ≥ 2^bound`, and a recorded bound `≤ y`). -/
+theorem lower_than_fixed_sound_reachable (hR : RangeSound R) (p : Nat)
+    (hinj : ∀ a b : Nat, a < p → b < p → ((a : Nat) : F) = ((b : Nat) : F) → a = b)
+    (fi : FieldInfo) (nr mbl : Nat) (h0 : 0 < nr) (h4 : nr ≤ 4) (hm : 0 < mbl)
+    (prog : List (COp F)) (r : RunSt F) (hrun : runCore fi ⟨St.init nr mbl, #[]⟩ prog = some r)
+    (i : Nat) (x : Cell × Nat) (hx : r.cellD i = some x) (y : Nat) (hy : y < p)
+    (hmax : 2 * 2 ^ x.2 ≤ p) (asg : Cell → F) (h : (lowerThanFixed r.st x.1 x.2 y).2.Holds R asg) :
+    ∃ nx : Nat, nx < 2 ^ x.2 ∧ asg x.1 = (nx : F) ∧
+      asg (lowerThanFixed r.st x.1 x.2 y).1 = if nx < y then 1 else 0 := by
+  obtain ⟨g0, g4, gm, hall⟩ := runCore_good hR fi prog _ r (init_good nr mbl h0 h4 hm) hrun
+  have hI := hall asg ((lowerThanFixed_ext ..).holds asg h)
+  obtain ⟨nx, hnx, hv⟩ := tyD_of_inv hI hx
+  refine ⟨nx, hnx, hv, ?_⟩
+  rw [(lowerThanFixed_sound hR p hinj r.st x.1 x.2 y asg nx hv hnx hy hmax g0 g4
+    (optOK_all _ _ g0 gm) hI.1 hI.2.1 h).2.2]
+  by_cases hh : nx < y <;> simp [bF, hh]
 
 /-- `assign_lower_than_fixed` for every positive bound (power of two or not). -/
 theorem assign_lower_than_fixed_sound (hR : RangeSound R) (s : St F) (bound : Nat) (asg : Cell → F)
@@ -613,6 +721,46 @@ theorem div_rem_sound_partial (p d B x q r : Nat) (hd : 0 < d) (hB : B + d ≤ p
     q = x / d ∧ r = x % d :=
   divrem_core_sound p d B x q r hd hB hx hr hq heq
 
+
+/-- **`div_rem` / `rem` with a declared dividend bound, circuit level** (division.rs; completes
+`div_rem_sound_partial`, which is its arithmetic core): for a dividend cell holding `n ≤ B` with
+`B + d ≤ p` and a divisor `d > 1`, EVERY accepted assignment of the quotient and remainder cells
+has `q = n / d`, `r = n mod d`. -/
+theorem div_rem_bounded_sound (hR : RangeSound R) (p : Nat)
+    (hinj : ∀ a b : Nat, a < p → b < p → ((a : Nat) : F) = ((b : Nat) : F) → a = b)
+    (s : St F) (x : Cell) (d B pm1 n : Nat) (asg : Cell → F)
+    (hd : 1 < d) (hBd : B + d ≤ p) (hn : n ≤ B) (hx : asg x = (n : F))
+    (h0 : 0 < s.nrCols) (h4 : s.nrCols ≤ 4) (hm : 0 < s.maxBitLen)
+    (hc : s.CacheOK asg) (hB : s.BoundsOK asg) (h : (divRem s x d (some B) pm1).2.Holds R asg) :
+    asg (divRem s x d (some B) pm1).1.1 = ((n / d : Nat) : F) ∧
+    asg (divRem s x d (some B) pm1).1.2 = ((n % d : Nat) : F) :=
+  divRem_bounded_sound hR p hinj s x d B pm1 n asg hd hBd hn hx h0 h4 hm hc hB h
+
+/-- **`bnot`** (bitwise.rs): the operand is a natural number below `2^n` — a larger value makes
+the circuit unsatisfiable, on the constraint path and on the bound-cache path — and the output is
+`2^n − 1 − x`. -/
+theorem bnot_sound' (hR : RangeSound R) (s : St F) (x : Cell) (n : Nat) (asg : Cell → F)
+    (h0 : 0 < s.nrCols) (h4 : s.nrCols ≤ 4) (hm : 0 < s.maxBitLen)
+    (hc : s.CacheOK asg) (hB : s.BoundsOK asg) (h : (bnot s x n).2.Holds R asg) :
+    (∃ X : Nat, X < 2 ^ n ∧ asg x = (X : F)) ∧
+    asg (bnot s x n).1 = ((2 ^ n : Nat) : F) - 1 - asg x :=
+  bnot_sound hR s x n asg h0 h4 hm hc hB h
+
+/-- **Byte-typed `is_equal` / `assert_equal`** (native_gadget.rs: operands converted byte →
+native, which records the bound 256, then the native instruction): `[x = y]`, resp. satisfiable
+only when `x = y`; both cache invariants are re-established. -/
+theorem byte_equality_sound (s : St F) (x y : Cell) (asg : Cell → F)
+    (hx : ∃ n : Nat, n < 256 ∧ asg x = (n : F)) (hy : ∃ n : Nat, n < 256 ∧ asg y = (n : F))
+    (hc : s.CacheOK asg) (hB : s.BoundsOK asg) :
+    ((byteIsEqual s x y).2.Holds R asg → (byteIsEqual s x y).2.BoundsOK asg ∧
+      asg (byteIsEqual s x y).1 = if asg x = asg y then 1 else 0) ∧
+    ((byteAssertEqual s x y).Holds R asg → (byteAssertEqual s x y).BoundsOK asg ∧ asg x = asg y) := by
+  refine ⟨fun h => ?_, fun h => ?_⟩
+  · obtain ⟨_, b, r⟩ := byteIsEqual_sound s x y asg hx hy hc hB h
+    refine ⟨b, ?_⟩
+    rcases r with ⟨a, c⟩ | ⟨a, c⟩ <;> simp [a, c]
+  · exact (byteAssertEqual_sound s x y asg hx hy hc hB h).2
+
 /-! ## Completeness (honest witnesses exist; non-vacuity of the soundness theorems) -/
 
 /-- `is_equal` is complete: for all inputs `x, y` the honest witness (`aux = (x−y)⁻¹` or 1)
@@ -635,6 +783,40 @@ theorem cond_swap_complete (b : Bool) (x y : F) :
     witCondSwap b x y (progCondSwap (F := F)).1.1 = (if b then y else x) ∧
     witCondSwap b x y (progCondSwap (F := F)).1.2 = (if b then x else y) :=
   condSwap_complete b x y
+
+
+/-- `select` is complete. -/
+theorem select_complete' (b : Bool) (x y : F) :
+    (progSelect (F := F)).2.Holds R (witSelect b x y) ∧
+    witSelect b x y (progSelect (F := F)).1 = (if b then x else y) :=
+  select_complete b x y
+
+/-- `assert_not_equal` is complete exactly on its domain `x ≠ y` (`assertions_sound`: unsatisfiable
+otherwise). -/
+theorem assert_not_equal_complete (x y : F) (hxy : x ≠ y) :
+    (progAssertNotEqual (F := F)).Holds R (witAssertNotEqual x y) ∧
+    witAssertNotEqual x y ⟨0, 0, .adv 0⟩ = x ∧ witAssertNotEqual x y ⟨1, 0, .adv 0⟩ = y :=
+  assertNotEqual_complete x y hxy
+
+/-- `is_equal_to_fixed` (hence `is_zero`) is complete, for every constant. -/
+theorem is_equal_to_fixed_complete (x c : F) :
+    (progIsEqualToFixed (F := F) c).2.Holds R (witIsEqualToFixed x c) ∧
+    witIsEqualToFixed x c ⟨0, 0, .adv 0⟩ = x ∧
+    witIsEqualToFixed x c (progIsEqualToFixed (F := F) c).1 = if x = c then 1 else 0 :=
+  isEqualToFixed_complete x c
+
+/-- `is_not_equal` is complete. -/
+theorem is_not_equal_complete (x y : F) :
+    (progIsNotEqual (F := F)).2.Holds R (witIsNotEqual x y) ∧
+    witIsNotEqual x y ⟨0, 0, .adv 0⟩ = x ∧ witIsNotEqual x y ⟨1, 0, .adv 0⟩ = y ∧
+    witIsNotEqual x y (progIsNotEqual (F := F)).1 = if x = y then 0 else 1 :=
+  isNotEqual_complete x y
+
+/-- The multiplication row (`add_and_mul`, what `mul` emits when no shortcut applies) is complete. -/
+theorem mul_row_complete (k x y : F) :
+    (progMul (F := F) k).2.Holds R (witMul k x y) ∧
+    witMul k x y (progMul (F := F) k).1 = k * x * y :=
+  mulRow_complete k x y
 
 /-- Non-vacuity of the hypotheses `CacheOK`/`Holds` of the soundness theorems: the state after
 `assign; assign` has an empty constant cache, and the honest witness of `is_equal` satisfies
